@@ -64,7 +64,9 @@ const (
 // CurrentVersion is the audit log entry format version.
 //   - v2 added actor/request/outcome detail fields.
 //   - v3 added ResourceDetails.SourceBucket/SourceKey for server-side copy operations.
-const CurrentVersion uint16 = 3
+//   - v4 covers ResourceDetails.SourceBucket/SourceKey with the entry hash (v3 stored
+//     them but left them out of the hash).
+const CurrentVersion uint16 = 4
 
 type EntryType string
 
@@ -171,6 +173,10 @@ func (e *Entry) CalculateHash() []byte {
 		writeString(buf, d.Resource.Key)
 		writeString(buf, d.Resource.UploadID)
 		binary.Write(buf, binary.BigEndian, d.Resource.PartNumber)
+		if e.Version >= 4 {
+			writeString(buf, d.Resource.SourceBucket)
+			writeString(buf, d.Resource.SourceKey)
+		}
 
 		if e.Version <= 1 {
 			writeString(buf, d.Actor.CredentialID)
